@@ -62,7 +62,9 @@ FM(b) == b % 8
 IsNaN(b) == FE(b) = 15 /\ FM(b) # 0
 (* the value times 2^9 (bias 7, 3 mantissa bits): an integer, so values are compared exactly;       *)
 (* an infinity gets a magnitude above every finite one                                               *)
-Mag(b) == IF FE(b) = 0 THEN FM(b) ELSE (8 + FM(b)) * Pow2(FE(b) - 1)
+MagDef(b) == IF FE(b) = 0 THEN FM(b) ELSE (8 + FM(b)) * Pow2(FE(b) - 1)
+MagTable == [x \in 0..255 |-> MagDef(x)]        \* evaluated once by TLC
+Mag(b) == MagTable[b]
 Val(b) == IF FS(b) = 1 THEN -Mag(b) ELSE Mag(b)
 (* IEEE order with -0 = +0 and all NaNs one value above +inf *)
 ValCmp(a, b) == IF IsNaN(a) /\ IsNaN(b) THEN 0 ELSE IF IsNaN(a) THEN 1 ELSE IF IsNaN(b) THEN -1
@@ -89,33 +91,38 @@ DecVec(k) == IF k[1] >= 128 THEN FlipSign(k[1]) ELSE Not8(k[1])
 
 (* ---------------------------------------------------------------- the state: a pair of bytes *)
 VARIABLES a, b
-(* a is chosen first, then b: 256 states at depth 1 fan out to all 65 536 pairs, which lets TLC's    *)
-(* workers share the work; the invariants are stated for chosen pairs only (b = -1: not yet chosen)  *)
+(* a is chosen first, then b <= a: 256 states at depth 1 fan out to all 32 896 unordered pairs, which *)
+(* lets TLC's workers share the work.  Every pair invariant below is symmetric in a and b (it states  *)
+(* cmp(enc a, enc b) = cmp(a, b), and LexCmp / Sign are antisymmetric; IntFloatOK is stated for both  *)
+(* role assignments), so unordered pairs cover all 65 536 ordered ones.  Invariants about one value   *)
+(* are checked on the states with b = 0.  b = -1: not yet chosen.                                     *)
 Init == a \in 0..255 /\ b = -1
-Next == b = -1 /\ b' \in 0..255 /\ a' = a
+Next == b = -1 /\ b' \in 0..a /\ a' = a
 Spec == Init /\ [][Next]_<<a, b>>
 Chosen == b # -1
+Unary  == b = 0          \* one state per value of a
 
-MasksAreXor == Chosen => Not8(a) = Xor8(a, 255) /\ FlipSign(a) = Xor8(a, 128)
+MasksAreXor == Unary => Not8(a) = Xor8(a, 255) /\ FlipSign(a) = Xor8(a, 128)
 IntOrderOK == Chosen => LexCmp(EncInt(AsI8(a)), EncInt(AsI8(b))) = Sign(AsI8(a) - AsI8(b))
-IntRoundTrip == Chosen => DecInt(EncInt(AsI8(a))) = AsI8(a)
+IntRoundTrip == Unary => DecInt(EncInt(AsI8(a))) = AsI8(a)
 FlipOrderOK == Chosen => LexCmp(EncFlip(AsI8(a)), EncFlip(AsI8(b))) = Sign(AsI8(a) - AsI8(b))
-FlipRoundTrip == Chosen => DecFlip(EncFlip(AsI8(a))) = AsI8(a)
+FlipRoundTrip == Unary => DecFlip(EncFlip(AsI8(a))) = AsI8(a)
 FloatOrderOK == Chosen => LexCmp(EncFloat(a), EncFloat(b)) = ValCmp(a, b)
-FloatRoundTrip == Chosen => DecFloat(EncFloat(a)) = FloatBack(a)
+FloatRoundTrip == Unary => DecFloat(EncFloat(a)) = FloatBack(a)
 (* an integer and a float: ordered by sign class (documented number line); zero shares one key *)
 SignClass(v) == IF v < 0 THEN 1 ELSE IF v = 0 THEN 2 ELSE 3
 FClass(x) == IF IsNaN(x) THEN 5 ELSE IF x = NegInf THEN 0 ELSE IF x = PosInf THEN 4 ELSE SignClass(Val(x))
-IntFloatOK == Chosen => LET i == AsI8(a) c == LexCmp(EncInt(i), EncFloat(b)) IN
-              /\ (SignClass(i) # FClass(b) => c = Sign(SignClass(i) - FClass(b)))
-              /\ (c = 0 <=> (i = 0 /\ ~IsNaN(b) /\ Val(b) = 0))
+IntFloat(ib, fb) == LET i == AsI8(ib) c == LexCmp(EncInt(i), EncFloat(fb)) IN
+              /\ (SignClass(i) # FClass(fb) => c = Sign(SignClass(i) - FClass(fb)))
+              /\ (c = 0 <=> (i = 0 /\ ~IsNaN(fb) /\ Val(fb) = 0))
+IntFloatOK == Chosen => IntFloat(a, b) /\ IntFloat(b, a)
 
 (* expected to FAIL (MC_KeyBits_kf.cfg): the vector / JSON-number transform at negative zero *)
 VecOrderOK     == (Chosen /\ ~IsNaN(a) /\ ~IsNaN(b)) =>
                      \/ LexCmp(EncVec(a), EncVec(b)) = ValCmp(a, b)
                      \/ (Val(a) = 0 /\ Val(b) = 0 /\ LexCmp(EncVec(a), EncVec(b)) = Sign(FS(b) - FS(a)))
-VecRoundTripOK == Chosen => DecVec(EncVec(a)) = a
+VecRoundTripOK == Unary => DecVec(EncVec(a)) = a
 (* and what does hold for it: everything except negative zero (and negative NaNs for the round trip) *)
 VecOrderOKExceptNegZero == (Chosen /\ ~IsNaN(a) /\ ~IsNaN(b) /\ a # 128 /\ b # 128) => LexCmp(EncVec(a), EncVec(b)) = ValCmp(a, b)
-VecRoundTripExcept      == (Chosen /\ a # 128 /\ ~(IsNaN(a) /\ FS(a) = 1)) => DecVec(EncVec(a)) = a
+VecRoundTripExcept      == (Unary /\ a # 128 /\ ~(IsNaN(a) /\ FS(a) = 1)) => DecVec(EncVec(a)) = a
 =============================================================================
